@@ -1,5 +1,5 @@
 """C02 — Pr*A*Pc = L*U within gamma(n)|L||U|, multipliers bounded by 1/u, diagonal preferred."""
-from vlib import sweep as S, common as C
+from vlib import sweep as S, common as C, pivot as PV
 LEVEL = "proof"
 EXPLANATION = ("Pivot policy / threshold / exact LU identity are theorems about Model/Pivot.lean and Model/LU.lean; the "
                "floating-point clause |PrAPc-LU| <= gamma(n)|L||U| is decided per run by the Lean-verified exact checker "
@@ -10,6 +10,16 @@ ASSUMPTIONS = ["rounding (gamma(n)) is judged per run, not proved for the supern
 
 
 def run(ctx):
+    # (a) correspondence of the pivot routine itself: real p?gstrf_pivotL vs Model/Pivot.lean on the exact lattice
+    st, dis = PV.run(ctx, 1500 if ctx.quick() else 20000)
+    ctx.coverage["pivotL_correspondence"] = st
+    ctx.coverage["traces_validated_against_impl"] = st["cases"]
+    for d in [x for x in dis if x["kind"] == "pivotL-property"][:10]:
+        ctx.violation("pivotL-property:" + ",".join(d["fields"]), "real p?gstrf_pivotL breaks the pivot clause(s) %s" % d["fields"], d)
+    for d in [x for x in dis if x["kind"] != "pivotL-property"][:10]:
+        ctx.violation("pivotL-correspondence:" + ",".join(d.get("fields", [d["kind"]])),
+                      "correspondence p?gstrf_pivotL <-> Model/Pivot.lean (theorems Slu.pivot_*) no longer checks: %s" % (d.get("fields") or d["kind"]), d, no_input=True)
+    # (b) oracle on whole factorizations
     n_cases, nmax = (700, 48) if ctx.quick() else (15000, 160)
     recs = S.sweep(ctx, n_cases, nmax, precs="ds", drivers=("gssv", "gssvx", "gssvx"))
     bad = S.judge(ctx, recs, ["wfL", "wfU", "permr", "permc", "lower", "upper", "lu", "mult", "diag"], "LU-identity")
